@@ -285,3 +285,12 @@ ENTRIES["C14"]["text"] += (" After the repair of defect D21 (non_colliding_offse
 ENTRIES["C07"]["note"] += (" inside_bounds and the per-joint body of compute_centers are additionally tied by the statement-level source translator (Props/Tie, generic in the number type).")
 ENTRIES["C18"]["note"] += (" Known finding D22 (arcs a few ulp wide whose midpoint is not representable) is printed as KNOWN-FINDING; the exact sub-epsilon family must pass.")
 ENTRIES["C11"]["note"] += (" The check also runs C10-style oracle-table scenes: the verdicts 'not reported colliding' rests on are compared with the brute-force pairwise check (C10.all_exact / first_subset / collides_iff decide C11 too).")
+
+ENTRIES["C02"]["text"] += (" Props/C02c ([R]): NO DUPLICATES -- for a non-singular configuration whose other shoulder configuration also reaches the wrist "
+    "centre with a proper elbow (OtherShoulderRegular; automatic for a1 = 0) the eight raw candidates are pairwise not congruent modulo whole turns, hence "
+    "inverse_intern / inverse return no two answers congruent modulo 2pi (inverse_nodup); with NonSingular alone the answer congruent to the originating "
+    "vector (and its twin) occurs exactly once; the extra hypothesis is shown necessary (candidates_duplicate_of_unreachable: arccos clamps, two rows "
+    "coincide); answer count = number of candidates passing the cross-check, between 2 and 8; same count for the pose of an exactly reproducing answer.")
+ENTRIES["C02"]["note"] = ("Completeness, closure and no-duplicates are theorems over the reals (no-duplicates under OtherShoulderRegular, shown necessary in the model: "
+    "Real.arccos clamps where IEEE acos returns NaN); equal answer-set sizes for the pose of EVERY returned solution stays sampled (C02.same_count). Trusted: "
+    "Lean kernel + 3 standard axioms; model tied by the differential run and the source translators.")
